@@ -185,12 +185,34 @@ def _jd(o):
 
 
 # ---- process pool --------------------------------------------------------------------------
+class _ItemTimeout(Exception):
+    pass
+
+
+def _item_timeout(signum, frame):
+    raise _ItemTimeout("work item still running after %s s (hanging implementation or harness?)" % ITEM_TIMEOUT)
+
+
+ITEM_TIMEOUT = int(os.environ.get("VERIF_ITEM_TIMEOUT", "3000"))
+
+
 def _wrap(args):
     fn, a = args
+    import signal
+    armed = False
     try:
+        # no work item of any check legitimately runs this long; never wait forever on a looping implementation
+        if not signal.getsignal(signal.SIGALRM) or signal.getsignal(signal.SIGALRM) is signal.SIG_DFL:
+            signal.signal(signal.SIGALRM, _item_timeout)
+            signal.alarm(ITEM_TIMEOUT)
+            armed = True
         return ("ok", fn(a))
     except Exception:
         return ("err", traceback.format_exc())
+    finally:
+        if armed:
+            signal.alarm(0)
+            signal.signal(signal.SIGALRM, signal.SIG_DFL)
 
 
 def _worker_init():
